@@ -330,6 +330,14 @@ struct Pools {
          names().set(ident(*odd[k]), "DN" + std::to_string(6 + k));
          auto* v = greg->declare_var(*odd[k], *types[6 + k]); reg(decls, *v, "D");
       }
+      // a variable declared with a placeholder type whose initializer is already set (`auto v = e;`), and an ordinary
+      // initialised variable: what names them has the DECLARED type
+      {
+         auto& placeholder = lex.get_as_type(lex.get_identifier(u8"auto"));
+         names().set(ident(placeholder), "$auto");
+         auto* v = greg->declare_var(*ids[9], placeholder); v->init = exprs[0]; reg(decls, *v, "D");
+         auto* r = greg->declare_var(*ids[10], *types[10]); r->init = exprs[1]; reg(decls, *r, "D");
+      }
    }
 };
 }
